@@ -181,6 +181,7 @@ def run(ctx):
 
     self_edge_obligation(ctx, u, "R13.6")
     rewalk_obligation(ctx, u, "R13.7")
+    scan_evaluation(ctx, u, "R13.8")
 
 
 def _inside13(root, node):
@@ -263,3 +264,24 @@ def rewalk_obligation(ctx, u, rule):
         ctx.ob(rule, "recursive call@%s" % A.loc(c)[1], told or guarded, site=A.where(c), detail={"level_cursor": cur.get("name"), "handed_to_the_call": told, "call_guarded_by_a_test_of_it": guarded},
                key="%s:recursive call" % rule,
                what="scan_deps calls itself for an absent dependency without reference to the level it is examining (`%s`): for a sub-tree enabled by a port inside it (`sub/` enabled by `sub/enabled`, the enabling port at its default and therefore not in the file) the walk returns to the sub-tree and recurses until the stack is exhausted" % cur.get("name"))
+
+
+def scan_evaluation(ctx, u, rule):
+    ctx.rule(rule, "SCAN-EVALUATED: scan_deps, interpreted on 12 small port trees (std::string, the message map and the port tree modelled; its path helper and its own recursion evaluated in place), "
+                   "comes to an end and records for every message exactly the edges the metadata of its port and of its parent directories spell: lists of one to three entries as rDepends writes them "
+                   "(with the trailing comma), a default taken through a port without a line, a sub-tree enabled by a port inside it (present and absent), by a sibling, two directory levels, "
+                   "a directory and a port inside it that both carry a list")
+    from ..rules import depscan as DS
+    from .. import fdeval as FD
+    try:
+        bad, n = DS.check(u)
+    except FD.Unknown as e:
+        raise AnalysisBroken("%s: scan_deps not evaluable: %s" % (rule, e))
+    by_tree = {}
+    for b in bad:
+        by_tree.setdefault(b["tree"], []).append(b)
+    for name, ports, messages in DS.PROBES:
+        bb = by_tree.get(name, [])
+        ctx.ob(rule, "tree: %s" % name, not bb, site=A.where(u.function("scan_deps")), detail={"ports": {p_: m_ for p_, m_ in ports.items() if m_}, "file": messages, "mismatches": bb[:3]},
+               key="%s:%s" % (rule, name),
+               what="scan_deps, evaluated on the tree `%s`: %s" % (name, [{k_: v_ for k_, v_ in b_.items() if k_ in ("message", "outcome", "waits_for", "expected")} for b_ in bb[:2]]))
